@@ -1,14 +1,48 @@
 //! Kani harnesses deciding the properties of /verif/properties.jsonl on the real code of
 //! RustCrypto/block-modes (path dependencies on the repository's working tree).
-//! One module per property; `oracle` is the uninterpreted-permutation cipher, `spec` the
+//! One module per property (each behind a cargo feature of the same name, so that a run compiles
+//! only the module it needs); `oracle` is the uninterpreted-permutation cipher, `spec` the
 //! reference models.  Harness functions are `pub` so that generated replay tests can call them.
 #![allow(dead_code, unused_imports, unused_macros, clippy::all)]
 pub mod oracle;
 pub mod spec;
 pub mod prelude;
+pub mod common;
 
-#[cfg(kani)]
+#[cfg(all(kani, feature = "c01"))]
+pub mod c01;
+#[cfg(all(kani, feature = "c02"))]
 pub mod c02;
+#[cfg(all(kani, feature = "c03"))]
+pub mod c03;
+#[cfg(all(kani, feature = "c04"))]
+pub mod c04;
+#[cfg(all(kani, feature = "c05"))]
+pub mod c05;
+#[cfg(all(kani, feature = "c06"))]
+pub mod c06;
+#[cfg(all(kani, feature = "c07"))]
+pub mod c07;
+#[cfg(all(kani, feature = "c08"))]
+pub mod c08;
+#[cfg(all(kani, feature = "c09"))]
+pub mod c09;
+#[cfg(all(kani, feature = "c10"))]
+pub mod c10;
+#[cfg(all(kani, feature = "c11"))]
+pub mod c11;
+#[cfg(all(kani, feature = "c12"))]
+pub mod c12;
+#[cfg(all(kani, feature = "c13"))]
+pub mod c13;
+#[cfg(all(kani, feature = "c14"))]
+pub mod c14;
+#[cfg(all(kani, feature = "c15"))]
+pub mod c15;
+#[cfg(all(kani, feature = "c16"))]
+pub mod c16;
+#[cfg(all(kani, feature = "c17"))]
+pub mod c17;
 
 #[cfg(kani)]
 pub mod replay_slot;
